@@ -4,8 +4,9 @@
    access-time update of a read and the stores of the flag itself.  That the bracketed stores
    leave bystanders intact and end in a consistent volume is checked on every intermediate
    image of the implementation (correspondence / oracle), see DESIGN.md. *)
-From Coq Require Import List Arith Bool.
+From Coq Require Import List Arith NArith Bool.
 From NV Require Import Fat.SkelDefs Fat.SkelProofs Gen.FatSkel Fat.SkelTheorems.
+From NV Require FatDir.Model FatDir.ProofsBase FatDir.ProofsAppend.
 Import ListNotations.
 
 Theorem C15_skeleton_check : check15 = true.
@@ -24,3 +25,9 @@ Example C15_nonvacuous :
   ok_prog_from (fun _ => false) is_d all_on no_exempt 0 [[SWith LD [SWith LW [SPoke 0]]]] = true /\
   (1 < List.length entries_api) /\ atime_edges <> [] /\ flag_functions <> [].
 Proof. repeat split; try reflexivity; try (vm_compute; repeat constructor); discriminate. Qed.
+
+(* appending a directory entry (long-name records, short record, new end-of-directory record) stores the records from the highest index down: after every proper prefix of the stores the records before the old end are unchanged and the decoded groups are the old ones (plus, only when deleted records trail the last group, a transient extra) -- every bystander entry is present at every crash point, the old terminator is overwritten last *)
+Theorem C15_dir_append_back_to_front :
+  (list N -> list N) -> forall (spc : N) (d : Model.dir) (recs_new : list Model.rec), ProofsView.cap_ok d -> (0 < spc)%N -> ProofsAppend.fits d (Model.last_end (Model.groups (Model.d_recs d)) + N.of_nat (length (recs_new ++ [Model.zero_rec])) - 1) -> map fst (Model.append_pokes (Model.last_end (Model.groups (Model.d_recs d))) (recs_new ++ [Model.zero_rec])) = rev (map (fun j : nat => (Model.last_end (Model.groups (Model.d_recs d)) + N.of_nat j)%N) (seq 0 (length (recs_new ++ [Model.zero_rec])))) /\ (forall j : nat, 1 <= j < length (recs_new ++ [Model.zero_rec]) -> exists dj : Model.dir, Model.pokes spc d (firstn j (Model.append_pokes (Model.last_end (Model.groups (Model.d_recs d))) (recs_new ++ [Model.zero_rec]))) = (dj, None) /\ firstn (N.to_nat (Model.last_end (Model.groups (Model.d_recs d)))) (Model.d_recs dj) = firstn (N.to_nat (Model.last_end (Model.groups (Model.d_recs d)))) (Model.d_recs d) /\ (exists extra : list Model.group, Model.groups (Model.d_recs dj) = Model.groups (Model.d_recs d) ++ extra) /\ (ProofsBase.kind_of (nth (N.to_nat (Model.last_end (Model.groups (Model.d_recs d)))) (Model.d_recs d) Model.zero_rec) = ProofsBase.KEnd -> Model.groups (Model.d_recs dj) = Model.groups (Model.d_recs d) /\ ProofsView.view (Model.d_recs dj) = ProofsView.view (Model.d_recs d))).
+Proof. exact FatDir.ProofsAppend.setitem_pokes_back_to_front. Qed.
+Print Assumptions C15_dir_append_back_to_front.
